@@ -132,6 +132,7 @@ def run_live(shard, rec, B):
             compose_history(rec, B, rng, N, named)
             wider_register(rec, B, rng, N, named)
             moved_gate(rec, B, rng, N)
+            refusals(rec, B, rng, N, named)
         circ = CC.new_circuit(B, cls, N)
         prog, inserted = [], []
         hist = []
@@ -371,3 +372,37 @@ def moved_gate(rec, B, rng, N):
             eg, ep = O.map_image_list(mg, mp, item[2], item[3])
             rec.check("live.move", CC.same(got, (eg, ep, item[4])), dict(desc, kind=item[0]), True,
                       expected=CC.show_rows((eg, ep, item[4])), observed=CC.show_rows(got))
+
+
+def refusals(rec, B, rng, N, named):
+    """gates on qubits the circuit does not have, and circuits of another size: when the library refuses them, the refusing circuit
+    goes on acting as the gates it already holds."""
+    prog = PR.rand_program(rng, N, int(rng.integers(1, 5)), named=named)
+    for cls in ["CliffordCircuit"] + (["Circuit"] if hasattr(B.circuit, "Circuit") else []):
+        circ, _ = CC.build(B, cls, prog, N)
+        bad = B.circuit.CliffordGate(*(list(range(max(0, N - 2), N - 1)) + [N + int(rng.integers(0, 2))]))
+        bad.set_forward_map(B.Map(*O.random_map(rng, bad.n)))
+        tries = [("take", lambda: circ.take(bad)), ("gate", lambda: circ.gate(0, N))]
+        if cls == "CliffordCircuit":
+            other, _ = CC.build(B, cls, prog[:1], N)
+            other.N = N        # same class, built for another register size below
+            wide = CC.new_circuit(B, cls, N + 1)
+            tries.append(("compose", lambda: circ.compose(wide)))
+        accepted = False
+        for what, call in tries:
+            # C09 does not say that ill-formed additions must be refused (the torch port accepts them): only what holds AFTER a refusal is judged
+            try:
+                call()
+                accepted = True
+                rec.bump("ill_formed_additions_accepted")
+            except Exception as e:
+                rec.refusal("%s:%s" % (type(e).__name__, what))
+        if accepted:
+            continue
+        gs, ps = gen.rand_list(rng, 4, N), rng.integers(0, 4, 4)
+        obj = B.PauliList(gs.copy(), ps.copy())
+        ok, _ = rec.attempt("reject.then_forward", [N, cls], lambda: circ.forward(obj))
+        if ok:
+            eg, ep = _act(B, prog, N, gs, ps)
+            lg, lp = B.gsps(obj)
+            rec.check("reject.then_forward", np.array_equal(lg, eg) and np.array_equal(lp, ep % 4), {"N": N, "cls": cls, "program": [PR.describe(x) for x in prog]}, True)
